@@ -436,6 +436,14 @@ fn debug_session(text: &str, markers: &[(u32, u32)], script: &Json) -> DebugOut 
                 bps.push((*l, None));
             }
         }
+        "mixed" => {
+            let p = script["bp_percent"].as_u64().unwrap_or(50);
+            for l in &marker_lines {
+                if rng.below(100) < p {
+                    bps.push((*l, None));
+                }
+            }
+        }
         _ => {
             let p = script["bp_percent"].as_u64().unwrap_or(50);
             for l in &marker_lines {
@@ -460,6 +468,26 @@ fn debug_session(text: &str, markers: &[(u32, u32)], script: &Json) -> DebugOut 
         Err(e) => out.problems.push(("debugger-request-failed".to_owned(), format!("resolve_breakpoints: {e}"))),
     };
     set_bps(adapter.as_ref(), &bps, &mut out);
+    // The client also tells the adapter that another source file has no breakpoints (an editor
+    // does that for every open file): this must not touch the breakpoints of this file.
+    let other_ast = kit::parse("other.star", "other_x = 1\n").ok();
+    let clear_other = |ad: &dyn DapAdapter, out: &mut DebugOut| {
+        if let Some(oa) = &other_ast {
+            match resolve_breakpoints(&bp_args(&[]), oa) {
+                Ok(r) => {
+                    if let Err(e) = ad.set_breakpoints("other.star", &r) {
+                        out.problems.push(("debugger-request-failed".to_owned(), format!("set_breakpoints(other file): {e}")));
+                    }
+                }
+                Err(e) => out.problems.push(("debugger-request-failed".to_owned(), format!("resolve_breakpoints(other file): {e}"))),
+            }
+        }
+    };
+    let other_file = script["other_file_empty"].as_bool().unwrap_or(false);
+    if other_file {
+        clear_other(adapter.as_ref(), &mut out);
+    }
+    let mut last_resume_continue = true;
     let text_owned = text.to_owned();
     let tx2 = tx.clone();
     let eval_thread = std::thread::Builder::new()
@@ -516,6 +544,10 @@ fn debug_session(text: &str, markers: &[(u32, u32)], script: &Json) -> DebugOut 
                     }
                 };
                 out.stops.push(line);
+                // After `continue` the program may only stop where a breakpoint is set.
+                if mode == "mixed" && last_resume_continue && !bps.iter().any(|b| b.0 == line) {
+                    out.problems.push(("debugger-stop-without-reason".to_owned(), format!("stop {n} at line {line} after `continue`, breakpoints are on lines {:?}", bps.iter().map(|b| b.0).collect::<Vec<_>>())));
+                }
                 // At every stop: the stack trace, the top frame against it, the variables of every frame.
                 match ad.stack_trace(StackTraceArguments { format: None, levels: None, start_frame: None, thread_id: 0 }) {
                     Err(e) => out.problems.push(("debugger-request-failed".to_owned(), format!("stack_trace at stop {n}: {e}"))),
@@ -580,6 +612,9 @@ fn debug_session(text: &str, markers: &[(u32, u32)], script: &Json) -> DebugOut 
                     bps = marker_lines.iter().filter(|_| rng.below(100) < p).map(|l| (*l, None)).collect();
                     out.bp_changes.push((out.stops.len(), bps.iter().map(|b| b.0).collect()));
                     set_bps(ad.as_ref(), &bps, &mut out);
+                    if other_file {
+                        clear_other(ad.as_ref(), &mut out);
+                    }
                 }
                 let ad = adapter.as_ref().unwrap();
                 if Some(n) == detach_at {
@@ -596,7 +631,23 @@ fn debug_session(text: &str, markers: &[(u32, u32)], script: &Json) -> DebugOut 
                     let _ = adapter.as_ref().unwrap().continue_();
                     continue;
                 }
+                last_resume_continue = mode != "step";
                 let r = match mode {
+                    "mixed" => match rng.below(4) {
+                        0 => {
+                            last_resume_continue = false;
+                            ad.step(StepKind::Into)
+                        }
+                        1 => {
+                            last_resume_continue = false;
+                            ad.step(StepKind::Over)
+                        }
+                        2 => {
+                            last_resume_continue = false;
+                            ad.step(StepKind::Out)
+                        }
+                        _ => ad.continue_(),
+                    },
                     "step" => {
                         let kind = match script["step_kind"].as_str().unwrap_or("into") {
                             "over" => StepKind::Over,
@@ -728,8 +779,10 @@ impl World for C18 {
         let mut sessions: Vec<Json> = Vec::new();
         for i in 0..ns {
             let detach = if sch.chance(1, 5) { json!(sch.below(6)) } else { Json::Null };
-            sessions.push(json!({"mode": "breakpoints", "seed": sch.next_u64() >> 8, "bp_percent": *sch.pick(&[10u64, 30, 60, 100]), "detach_at_stop": detach, "late_request": i == 0, "max_stops": 300}));
+            sessions.push(json!({"mode": "breakpoints", "seed": sch.next_u64() >> 8, "bp_percent": *sch.pick(&[10u64, 30, 60, 100]), "detach_at_stop": detach, "late_request": i == 0, "max_stops": 300, "other_file_empty": sch.bool()}));
         }
+        // Breakpoints and stepping mixed: any resume command at any stop.
+        sessions.push(json!({"mode": "mixed", "seed": sch.next_u64() >> 8, "bp_percent": *sch.pick(&[20u64, 40, 70]), "max_stops": 400, "other_file_empty": sch.bool()}));
         sessions.push(json!({"mode": "step", "step_kind": "into", "seed": sch.next_u64() >> 8, "max_stops": 2000}));
         sessions.push(json!({"mode": "step", "step_kind": *sch.pick(&["over", "out", "mixed"]), "seed": sch.next_u64() >> 8, "max_stops": 2000,
                              "detach_at_stop": if sch.chance(1, 4) { json!(sch.below(10)) } else { Json::Null }}));
@@ -842,6 +895,10 @@ impl World for C18 {
             }
             if d.result.starts_with("PANIC") {
                 o.violate("panic", "debugger-panic", format!("{what}: {}", kit::clip(&d.result)));
+                break;
+            }
+            if let Some((c, m)) = d.problems.iter().find(|(c, _)| c == "debugger-stop-without-reason") {
+                o.violate(c, "stop-reason", format!("{what}: {m}"));
                 break;
             }
             if let Some((c, m)) = d.problems.iter().find(|(c, _)| c == "debugger-top-frame-wrong") {
